@@ -467,6 +467,14 @@ class FNode(object):
 
     def bv_width(self) -> int:
         """Return the BV width of the formula."""
+        if self.is_ite():
+            # The width is the one of the left child (the right child
+            # has the same width if the node is well-formed). Nested
+            # ITEs are followed with a loop: no recursion on the depth
+            node = self
+            while node.is_ite():
+                node = node.arg(1)
+            return node.bv_width()
         if self.is_bv_constant():
             return self._content.payload[1]
         elif self.is_symbol():
@@ -475,11 +483,6 @@ class FNode(object):
         elif self.is_function_application():
             # Return width defined in the declaration
             return cast(types._BVType, cast(types._FunctionType, self.function_name().symbol_type()).return_type).width
-        elif self.is_ite():
-            # Recursively call bv_width on the left child
-            # (The right child has the same width if the node is well-formed)
-            width_l = self.arg(1).bv_width()
-            return width_l
         elif self.is_select():
             # This must be a select over an array with BV value type
             ty = self.arg(0).get_type()
